@@ -206,7 +206,11 @@ class ExprGen:
                 k2 = r.choice(list(self.env.mappings[m].get(k1, {"s": 0})) + ["nokey"])
             else:
                 m, k1, k2 = "NoMap", "k1", "s"
-            wrap = lambda x: x if r.random() < 0.7 else {"Fn::Join": ["", [x]]}  # noqa: E731
+            def wrap(x):
+                # the commonest real form: the top-level key looked up through the region pseudo parameter
+                if x == "eu-west-1" and r.random() < 0.6:
+                    return {"Ref": "AWS::Region"}
+                return x if r.random() < 0.7 else {"Fn::Join": ["", [x]]}
             return {"Fn::FindInMap": [wrap(m), wrap(k1), wrap(k2)]}
         if k < 0.78:
             return {"Fn::Base64": self.s(d - 1)}
